@@ -25,6 +25,22 @@ for d in sorted(glob.glob('/verif/seeded/C*-*')):
     rows.append(f"| {name} | {title[:140]} | {', '.join(det) if det else '**not detected**'} | `{why}` |" if why else f"| {name} | {title[:140]} | {', '.join(det) if det else '**not detected**'} | |")
 rows.append("")
 rows.append(f"{caught} of {caught + missed} seeded changes are reported by at least one quick check.")
+# --- reverted fixes
+rv = json.load(open('/verif/seeded/REVERTS.json')) if os.path.exists('/verif/seeded/REVERTS.json') else {}
+rows.append("")
+rows.append("Reverted fixes (`tools/revert_sweep.py`: each `fix:` commit reverse-applied in a scratch worktree, quick tier of the checks that own the defect):")
+rows.append("")
+rows.append("| reverted fix | reported by | not reported by | note |")
+rows.append("|---|---|---|---|")
+for c, v in rv.items():
+    ch = v.get('checks', {})
+    if isinstance(ch, dict):
+        yes = [k for k, x in ch.items() if x.get('exit') == 1]
+        no = [k for k, x in ch.items() if x.get('exit') != 1]
+    else:
+        yes, no = [], list(ch)
+    note = '' if v.get('status') == 'ok' else v.get('status', '')
+    rows.append(f"| {c} {v.get('subject','')[5:75]} | {', '.join(yes)} | {', '.join(no)} | {note} |")
 p = '/verif/DESIGN.md'
 s = open(p).read()
 a = s.index('<!-- SENSITIVITY-TABLE-BEGIN -->') + len('<!-- SENSITIVITY-TABLE-BEGIN -->')
